@@ -63,6 +63,7 @@ def validate(E, seed, tier):
 
 
 META = {
+    "glue": ['groupby_lib/emas.py::_halflife_to_int', 'groupby_lib/emas.py::_times_to_int_array', 'groupby_lib/emas.py::ema', 'groupby_lib/emas.py::ema_grouped', 'groupby_lib/groupby/core.py::ema'],
     "bounds": {"quick": {"N": 4, "G": 2, "code_sequences": "all 81 over {null,0,1}", "timed gaps": "0..3 halflives"},
                "thorough": {"N": 5, "G": 2, "extra": "N=4,G=3", "timed gaps": "0..3 halflives"}},
     "enumerated": ["the group-code sequence (every sequence of the bound): the quotient makes the merged query nonlinear", "time unit", "value dtype"],
